@@ -112,10 +112,12 @@ impl BusListener {
     // The matching predicates and enumerations of a listener (`self.filters.iter().copied().any(..)`, `filter_map` with a
     // closure: iterator adapters, outside Verus). ASSUMED, no contract: start_bus_listener only uses them to decide which
     // events to SEND, and sends are not part of the state model.
-    //@fn broker/src/bus_listener.rs BusListener::matches_object nobody
-    //@end
-    //@fn broker/src/bus_listener.rs BusListener::matches_service nobody
-    //@end
+    // verified in the leaf unit against the plain filter semantics (there the filters and ids are the real types; here they are
+    // opaque, so the semantics is an uninterpreted predicate); matches_object needs flags_ok -- discharged from bl_inv
+    pub uninterp spec fn some_filter_matches_object(&self, object: ObjectId) -> bool;
+    pub uninterp spec fn some_filter_matches_service(&self, service: ServiceId) -> bool;
+    //@fn-from broker_bus_listener broker/src/bus_listener.rs BusListener::matches_object
+    //@fn-from broker_bus_listener broker/src/bus_listener.rs BusListener::matches_service
     //@fn broker/src/bus_listener.rs BusListener::specific_objects nobody iter
     //@end
     //@fn broker/src/bus_listener.rs BusListener::specific_services nobody iter
